@@ -9,6 +9,7 @@ if ! git -C $R diff --quiet; then echo "repo dirty"; exit 9; fi
 for d in seeded/*/; do
   id=$(basename $d); echo "$id" | grep -Eq "$pat" || continue
   prop=$(python3 -c "import json;print(json.load(open('$d/meta.json'))['property'])")
+  if python3 -c "import json,sys; sys.exit(0 if json.load(open('$d/meta.json')).get('status','').startswith('obsolete') else 1)"; then echo "OBSOLETE $id"; continue; fi
   patch=$d/patch.diff; [ -f $d/patch.rebased.diff ] && patch=$d/patch.rebased.diff
   if ! git -C $R apply --check $PWD/$patch 2>/dev/null; then
      if git -C $R apply --3way $PWD/$patch >/dev/null 2>&1; then :; else echo "NOAPPLY  $id"; git -C $R reset -q --hard HEAD; rc=1; continue; fi
